@@ -9,7 +9,7 @@ sys.setrecursionlimit(max(sys.getrecursionlimit(), 30000))   # LOOP nests and in
 class Front:
     """result of the reference front end"""
     __slots__ = ("res", "toks", "macros", "stream", "nrewrites", "exhausted", "ast", "parser", "verdict",
-                 "reason", "excluded", "malformed_macros", "has_user_macros")
+                 "reason", "excluded", "malformed_macros", "has_user_macros", "tied")
 
 
 def front(files, main, budget=1024):
@@ -27,6 +27,7 @@ def front(files, main, budget=1024):
     f.stream = None
     f.macros = []
     f.has_user_macros = False
+    f.tied = False
     if f.res.errors:
         f.verdict = False
         f.reason = "scan/include error"
@@ -41,7 +42,9 @@ def front(files, main, budget=1024):
     f.macros = ms
     f.has_user_macros = any(m["file"] != includes.STANDARDS for m in ms)
     try:
+        macros.expand.tied = False
         f.stream, f.nrewrites, f.exhausted, _ = macros.expand(prog, ms, budget, max_len=max(4000, 8 * len(prog)))
+        f.tied = macros.expand.tied
     except (RecursionError, OverflowError):
         f.verdict = False
         f.reason = "reference gave up: runaway macro expansion"
@@ -61,7 +64,8 @@ def front(files, main, budget=1024):
     except parser.Rej as e:
         f.verdict = False
         f.reason = str(e)
-    f.excluded = p.dup_params or p.dup_labels or p.uses_builtin_names
+    # (a tie between two different macro definitions leaves the expansion unprescribed: such sources are not judged)
+    f.excluded = p.dup_params or p.dup_labels or p.uses_builtin_names or f.tied
     return f
 
 
